@@ -206,8 +206,8 @@ inline float ScriptRng::next() {
 	float v;
 	const unsigned r = s.prng.below(100);
 	if (r < 10)			v = 0.0f;
-	else if (r < 20)	{ uint32_t b = 0x3F7FFFFFu; memcpy(&v, &b, 4); }		// 1 - 2^-24
-	else if (r < 30)	v = 0.5f;
+	else if (r < 35)	{ uint32_t b = 0x3F7FFFFFu; memcpy(&v, &b, 4); }		// 1 - 2^-24
+	else if (r < 42)	v = 0.5f;
 	else				{ uint32_t m = static_cast<uint32_t>(s.prng.next()) >> 9; uint32_t b = 0x3F800000u | m; float f; memcpy(&f, &b, 4); v = f - 1.0f; }
 	out() << "rng " << hex(floatBits(v)) << "\n";
 	return v;
@@ -513,7 +513,8 @@ float onUtility(const TControl& c, int sid, int slot) {
 	else if (r < 55)	v = 0.1f;
 	else if (r < 60)	v = 3.0e-5f;
 	else if (r < 65)	v = 1000.0f;
-	else				v = static_cast<float>(1 + s.prng.below(4096)) / 1024.0f;
+	else if (r < 75)	v = static_cast<float>(1 + s.prng.below(4096)) / 1024.0f;
+	else				v = static_cast<float>(1 + s.prng.below(1u << 24)) / 1048576.0f;	// full mantissa: rounding in sums
 	cbLine(sid, slot, M_UTILITY, obs, "[]", "[]", "RU:" + hex(floatBits(v)), true);
 	return v;
 }
